@@ -59,8 +59,14 @@ def run(ck):
             nmol = 2
             md = dict(w0=0.5, w1=0.5, n0=3, n1=4, HR=0.7, order="HR-first")
             spec = [[], [md]] if h == 0 else [[md], []]
-        if h < 2:
-            pass
+        if h in (2, 3):
+            # boundary: many declared levels with a large Huang-Rhys factor (overlaps between HIGH vibrational levels)
+            if h == 2:
+                nmol = 1
+                spec = [[dict(w0=0.5, w1=0.5, n0=2, n1=16, HR=2.0, order="HR-first")]]
+            else:
+                nmol = 2
+                spec = [[dict(w0=0.5, w1=0.375, n0=1, n1=13, HR=1.2, order="energy-first")], [dict(w0=1.0, w1=1.0, n0=2, n1=2, HR=0.5, order="HR-first")]]
         E = [rng.randint(8, 16) * 1.0 for _ in range(2)][:max(nmol, 1)] if False else [rng.randint(8, 16) * 1.0 for _ in range(nmol)]
         Jc = rng.randint(-4, 4) / 4.0
         D = [[rng.randint(-3, 3) * 1.0 for _ in range(3)] for _ in range(nmol)]
@@ -149,6 +155,13 @@ def run(ck):
                             ck.fail("poisson", "overlaps from the vibrational ground state are not Poissonian with mean S", dict(inp, S=S, n=nq),
                                     float(Dm[0, nq] ** 2), p)
                             break
+                    # the displaced-oscillator law for ALL declared levels: <m|D(beta)|n>, beta = shift/sqrt(2), by the exact recurrence
+                    nl = max(md["n0"], md["n1"])
+                    An = displaced_overlaps(math, (sm0.shift - sm1.shift) / math.sqrt(2.0), nl)
+                    dev = max(abs(Dm[a_, b_] - An[a_][b_]) for a_ in range(nl) for b_ in range(nl))
+                    ck.resid("max |shift_operator - analytic displaced-oscillator overlap| over the declared levels", dev)
+                    if dev > 1e-9:
+                        ck.fail("displaced-oscillator", "overlap matrix of the reference 100-level shift operator differs from the analytic law", dict(inp, S=S), dev)
                     ck.resid("orthogonality of the 100-level overlap matrix", numpy.abs(Dm @ Dm.T - numpy.eye(Dm.shape[0])).max())
                     if numpy.abs(Dm @ Dm.T - numpy.eye(Dm.shape[0])).max() > 1e-9:
                         ck.fail("orthogonality", "overlap matrix not orthogonal", dict(inp, S=S))
@@ -161,6 +174,24 @@ def run(ck):
                     s2 = (sm1 if e2[m] == 1 else sm0).shift
                     r *= numpy.real(ops.shift_operator(s1 - s2))[int(v1[g]), int(v2[g])]
                 return r
+            analytic = {}
+            def fca(a, b):
+                (e1, v1), (e2, v2) = agg.vibsigs[a], agg.vibsigs[b]
+                r = 1.0
+                for g, (m, k, sm0, sm1, md) in enumerate(gmodes):
+                    s1 = (sm1 if e1[m] == 1 else sm0).shift
+                    s2 = (sm1 if e2[m] == 1 else sm0).shift
+                    key = round(s1 - s2, 15)
+                    if key not in analytic:
+                        analytic[key] = displaced_overlaps(math, (s1 - s2) / math.sqrt(2.0), 24)
+                    r *= analytic[key][int(v1[g])][int(v2[g])]
+                return r
+            worst = max(abs(FC[a, b] - fca(a, b)) for a in range(Ntot) for b in range(Ntot))
+            ck.resid("max |aggregate FC factor - analytic displaced-oscillator product|", worst)
+            if worst > 1e-9:
+                ab = max(((abs(FC[a, b] - fca(a, b)), a, b) for a in range(Ntot) for b in range(Ntot)))
+                ck.fail("fc:analytic", "Franck-Condon factor of the aggregate differs from the displaced-oscillator law",
+                        dict(inp, states=[states[ab[1]], states[ab[2]]]), float(FC[ab[1], ab[2]]), fca(ab[1], ab[2]))
             bad = None
             for a in range(Ntot):
                 for b in range(Ntot):
@@ -218,3 +249,15 @@ def run(ck):
                 if d > 1e-9 * max([1.0] + [abs(y) for y in fb]):
                     ck.disagree("%s elements differ by %.3g" % (name, d), l[:120], xa[:160], xb[:160])
     return ck.finish()
+
+
+def displaced_overlaps(math, beta, n):
+    """<m|D(beta)|n> for real beta, D = exp(beta (a^+ - a)), exact three-term recurrence (no matrix exponential)"""
+    F = [[0.0] * n for _ in range(n)]
+    F[0][0] = math.exp(-beta * beta / 2.0)
+    for k in range(1, n):
+        F[0][k] = F[0][k - 1] * (-beta) / math.sqrt(k)
+    for m in range(0, n - 1):
+        for k in range(n):
+            F[m + 1][k] = ((math.sqrt(k) * F[m][k - 1] if k > 0 else 0.0) + beta * F[m][k]) / math.sqrt(m + 1)
+    return F
